@@ -26,6 +26,7 @@ import (
 	"runtime/debug"
 	"sort"
 	"strings"
+	"sync"
 	"testing"
 
 	"github.com/sourcegraph/zoekt"
@@ -47,6 +48,16 @@ func (f *vfC19MemFile) Read(off, sz uint32) ([]byte, error) {
 func (f *vfC19MemFile) Size() (uint32, error) { return uint32(len(f.data)), nil }
 func (f *vfC19MemFile) Close()                {}
 func (f *vfC19MemFile) Name() string          { return f.name }
+
+// vfC19OnceFile makes Close idempotent: the trial unmaps a dropped shard explicitly, and the rankedShard's finalizer
+// closes it again at some later GC — by then the address range may belong to the NEXT trial's mapping, which a second
+// munmap of the stale slice would tear down under a running search.
+type vfC19OnceFile struct {
+	index.IndexFile
+	once sync.Once
+}
+
+func (f *vfC19OnceFile) Close() { f.once.Do(f.IndexFile.Close) }
 
 // ---- reflective walk
 
@@ -346,10 +357,11 @@ func vfC19OwnLoad(t testing.TB, images [][]byte, mmap bool, dir string) *vfC19Ow
 			if err != nil {
 				t.Fatal(err)
 			}
-			f, err = index.NewIndexFile(fh)
+			mf, err := index.NewIndexFile(fh)
 			if err != nil {
 				t.Fatal(err)
 			}
+			f = &vfC19OnceFile{IndexFile: mf}
 		} else {
 			data := append([]byte(nil), img...)
 			l.datas = append(l.datas, data)
@@ -386,11 +398,12 @@ type vfC19OwnCollect struct{ results []*zoekt.SearchResult }
 func (c *vfC19OwnCollect) Send(r *zoekt.SearchResult) { c.results = append(c.results, r) }
 
 type vfC19OwnQuery struct {
-	Kind    string
-	Mode    string // line | chunk
-	Whole   bool
-	Context int
-	Debug   bool
+	Kind                string
+	Mode                string // line | chunk
+	Whole               bool
+	Context             int
+	Debug               bool
+	MaxDocs, MaxMatches int // display limits (0 = none): the truncator re-slices the result before it is copied
 }
 
 func (qq vfC19OwnQuery) q() query.Q {
@@ -415,7 +428,8 @@ func (qq vfC19OwnQuery) q() query.Q {
 	return &query.Or{Children: []query.Q{&query.Substring{Pattern: vfC19Needle, Content: true}, &query.Substring{Pattern: "file", FileName: true}}}
 }
 func (qq vfC19OwnQuery) opts() *zoekt.SearchOptions {
-	return &zoekt.SearchOptions{ChunkMatches: qq.Mode == "chunk", Whole: qq.Whole, NumContextLines: qq.Context, DebugScore: qq.Debug}
+	return &zoekt.SearchOptions{ChunkMatches: qq.Mode == "chunk", Whole: qq.Whole, NumContextLines: qq.Context, DebugScore: qq.Debug,
+		MaxDocDisplayCount: qq.MaxDocs, MaxMatchDisplayCount: qq.MaxMatches}
 }
 
 func vfC19OwnStrs(xs []string) string {
@@ -438,6 +452,12 @@ func vfC19Own(t *testing.T, r *vfRand, trial int) {
 		Context: []int{0, 1, 3}[(trial/4)%3],
 		Debug:   r.Chance(30),
 	}
+	if r.Chance(25) {
+		qq.MaxDocs = 1 + r.Intn(3)
+	}
+	if r.Chance(25) {
+		qq.MaxMatches = 1 + r.Intn(4)
+	}
 	mmap := trial%5 == 4 // the sharded searches also run over really mmap'd files that are then munmap'd
 	dir := ""
 	if mmap {
@@ -451,7 +471,8 @@ func vfC19Own(t *testing.T, r *vfRand, trial int) {
 	ctx := context.Background()
 	replay := func(api string, extra map[string]any) map[string]any {
 		m := map[string]any{"seed": vfSeed(), "trial": trial, "api": api, "shards": world, "query": qq.q().String(), "query_kind": qq.Kind,
-			"options": map[string]any{"ChunkMatches": qq.Mode == "chunk", "Whole": qq.Whole, "NumContextLines": qq.Context, "DebugScore": qq.Debug},
+			"options": map[string]any{"ChunkMatches": qq.Mode == "chunk", "Whole": qq.Whole, "NumContextLines": qq.Context, "DebugScore": qq.Debug,
+				"MaxDocDisplayCount": qq.MaxDocs, "MaxMatchDisplayCount": qq.MaxMatches},
 			"backing": map[bool]string{false: "IndexFile over a []byte; after the search every byte is XORed with 0xff", true: "mmap'd scratch file (index.NewIndexFile); after the search IndexFile.Close() = munmap"}[mmap],
 			"how":     "build the shards with index.NewShardBuilder (Documents as listed; Symbols = first 'needle' of the content when Sym), index.NewSearcher over the backing, newShardedSearcher(2).replace(all), run the api, deep-copy the result, unload the backing, compare"}
 		for k, v := range extra {
@@ -515,7 +536,7 @@ func vfC19Own(t *testing.T, r *vfRand, trial int) {
 		for _, res := range results {
 			got += len(res.Files)
 		}
-		if got != nfiles {
+		if got != nfiles && qq.MaxDocs == 0 && qq.MaxMatches == 0 {
 			vfOracleFail("own:result-count", fmt.Sprintf("%s returned %d files, the shards searched one by one %d", api, got, nfiles), replay(api, nil))
 		}
 		if !mmap {
@@ -560,6 +581,9 @@ func vfC19Own(t *testing.T, r *vfRand, trial int) {
 	}
 	if mmap {
 		cls = append(cls, "own:munmap")
+	}
+	if qq.MaxDocs > 0 || qq.MaxMatches > 0 {
+		cls = append(cls, "own:display-limits")
 	}
 	vfCase(coq, vfKey("own", qq, rawAliased, nfiles, len(snapA)), len(rawAliased) >= 2, cls,
 		map[string]any{"trial": trial, "query": qq, "files": nfiles, "leaves": len(snapA), "views_in_raw_result": rawAliased,
